@@ -36,6 +36,13 @@ def build(data=None):
                       extra={"enthalpy": [float(i) for i in range(12)]}, meta={"operator": "verif"})
 
 
+def build_short():
+    """a branch too short for some interpolation kinds (two desorption points, three adsorption points): building the
+    interpolator is itself refused there, so the refusal paths of the caches are part of the histories"""
+    return make_point(BASE, "nitrogen", "verif_mat", 77.344, [0.2, 0.8, 1.6, 1.1, 0.4], [1.5, 3.9, 5.2, 4.8, 2.6], branch=[0, 0, 0, 1, 1],
+                      extra={"enthalpy": [float(i) for i in range(5)]}, meta={"operator": "verif"})
+
+
 def clone(iso):
     """a fresh, equal isotherm built from the exported dictionary and the data"""
     import pygaps
@@ -46,7 +53,8 @@ def xval(iso, q):
     col = iso.pressure_key if q["op"] in ("LA", "SP") else iso.loading_key
     d = iso.data_raw
     v = numpy.sort(d.loc[d["branch"] == (0 if q["b"] == "ads" else 1), col].to_numpy(dtype=float))
-    return {"below": v[0] * 0.5, "first": v[0], "interior": 0.5 * (v[2] + v[3]), "last": v[-1], "above": v[-1] * 1.5}[q["x"]]
+    mid = 0.5 * (v[2] + v[3]) if len(v) >= 4 else 0.5 * (v[0] + v[-1])
+    return {"below": v[0] * 0.5, "first": v[0], "interior": mid, "last": v[-1], "above": v[-1] * 1.5}[q["x"]]
 
 
 FILL_ZERO = False      # toggled by main(): a fill rule of exactly 0 is a fill rule too
@@ -235,6 +243,24 @@ def main(tier, seed):
                     pair(rng.choice(qs), q2)
         finally:
             FILL_ZERO = False
+    # ---- short branches (spec/IsoCache.tla HistoryIndependent judged against a fresh equal object): every query repeated
+    # unchanged (a refused construction must not leave anything behind that the repetition finds), every query after its
+    # one-component neighbours, and seeded pairs
+    nshort = 0
+    for q2 in qs:
+        firsts = [q2] + [q1 for q1 in qs if q1["op"] == q2["op"] and q1["x"] == "interior"
+                         and (q1["b"] != q2["b"]) + (q1["k"] != q2["k"]) + (q1["f"] != q2["f"]) == 1]
+        if not thorough:
+            firsts = [q2] + rng.sample(firsts[1:], min(2, len(firsts) - 1))
+        for q1 in firsts + [rng.choice(qs)]:
+            iso = build_short()
+            do_query(iso, q1)
+            step_check(run, iso, q2, [q1], None)
+            run.count(("short-pair", qname(q1), qname(q2)))
+            nshort += 1
+    run.add("traces_validated_against_impl", nshort)
+    run.set(query_pairs_on_short_branches=nshort)
+
     kinds = ("pressure", "loading", "material", "loading_basis", "combined")
     for q1 in (qs if thorough else rng.sample(qs, 40)):
         for j, q2 in enumerate(rng.sample(qs, 6) + [dict(q1, x="interior"), dict(q1, x="last")]):
